@@ -66,3 +66,9 @@ pub fn exp_model(x: f64) -> f64 {
     if x <= 0.0 { kani::assume(r <= 1.0); }
     r
 }
+
+// deterministic stand-in for exp in TWO-RUN (non-interference) harnesses: what matters there is that equal arguments give equal results
+// (exp is a function); the value bounds are those of `exp_model`.
+pub fn exp_det(x: f64) -> f64 {
+    if x <= 0.0 { 1.0 / (1.0 - x) } else { 1.0 + x }
+}
